@@ -2252,18 +2252,22 @@ hdf_close(NC *handle)
             vp = (NC_var **)vars;
             if (!IS_RECVAR(*vp) || (*vp)->ndg_ref == 0)
                 continue;
-            if ((gid = DFdiread(handle->hdf_file, DFTAG_NDG, (*vp)->ndg_ref)) == FAIL)
+            /* a variable whose NDG or SDD is not in the file has no old-style record count to update;
+               one that is there and cannot be read or accessed is an error */
+            if (Hexist(handle->hdf_file, DFTAG_NDG, (*vp)->ndg_ref) == FAIL)
                 continue;
+            if ((gid = DFdiread(handle->hdf_file, DFTAG_NDG, (*vp)->ndg_ref)) == FAIL)
+                HGOTO_FAIL(FAIL);
             while (DFdiget(gid, &etag, &eref) == SUCCEED)
                 if (etag == DFTAG_SDD)
                     sddref = eref;
-            if (sddref == 0)
+            if (sddref == 0 || Hexist(handle->hdf_file, DFTAG_SDD, sddref) == FAIL)
                 continue;
             if ((sdd_aid = Hstartaccess(handle->hdf_file, DFTAG_SDD, sddref, DFACC_RDWR)) == FAIL)
-                continue;
+                HGOTO_FAIL(FAIL);
             if (Hseek(sdd_aid, 2, DF_START) == FAIL || Hread(sdd_aid, 4, nbuf) != 4) {
                 Hendaccess(sdd_aid);
-                continue;
+                HGOTO_FAIL(FAIL);
             }
             INT32DECODE(np, old_recs);
             if (old_recs != (int32)(*vp)->numrecs) {
